@@ -11,7 +11,7 @@ for d in sorted(glob.glob('/verif/seeded/*-r[3-9]*'), key=lambda d: (re.search(r
     star = '* ' if 'missed at first' in note else ''
     caught = f"{star}{how}: {det['command'].split('patch.diff ')[-1]}" + (f" — {note}" if note else '')
     rows.append(f"| {os.path.basename(d)} | {(m.get('summary') or '')[:150].replace('|','/')} | {caught.replace('|','/')} |")
-block = ["### Rounds 3 to 8 (two changes per property and round, after C07 and C12 were added; worktrees at the repaired tree of the time; round 4 asked for easily overlooked sites and feature interplay, round 5 for changes that depend on the shape of the data or model and on rarely combined options, round 6 for boundaries (zero, one, many; nil versus empty; first versus later use) and error paths that leave the common path as it was, round 7 for effects that need two things used together - an option with a finisher, a clause with a dialect capability, a value used a second time, round 8 (12 properties) for state that outlives one call and helpers shared by several features)", "",
+block = ["### Rounds 3 to 9 (two changes per property and round, after C07 and C12 were added; worktrees at the repaired tree of the time; round 4 asked for easily overlooked sites and feature interplay, round 5 for changes that depend on the shape of the data or model and on rarely combined options, round 6 for boundaries (zero, one, many; nil versus empty; first versus later use) and error paths that leave the common path as it was, round 7 for effects that need two things used together - an option with a finisher, a clause with a dialect capability, a value used a second time, round 8 (12 properties) for state that outlives one call and helpers shared by several features, round 9 (6 properties: C02, C04, C07, C10, C12, C16) for changes that need an interleaving, a fault at one point, a multi-step sequence or two cooperating sites)", "",
          "Same rules as before (sub-agents see only the property text and a scratch worktree; every change was re-confirmed with tools/confirm_seed.sh: builds, both suites pass with it, the demonstration fails with it and passes without it). `*` marks changes that a check missed as it stood and caught after the strengthening named in the row; a change outside the bounded claim of the property's own check is listed with the check that does catch it. Side remarks of the sub-agents about the unchanged code were followed up: six of them turned out to be genuine defects the checks then reproduced (C06 x3, C02/C08 keyword spelling, C09 many-to-many, C11 pointer keys - see §8).", "",
          "| seed | change (sub-agent's summary) | caught by |", "|---|---|---|"] + rows
 B, E = "<!-- BEGIN R3 -->", "<!-- END R3 -->"
